@@ -343,4 +343,49 @@ func runC08(r *Run) {
 			r.violate(v)
 		}
 	}
+	// a loss of the NEW connection while the finished recovery is still inside the after-reconnect callback (the
+	// single-flight flag is set): it must not be forgotten - with the keepalive far away nothing else would notice
+	for _, trans := range []string{"tcp", "ws"} {
+		f, err := openF(trans)
+		if err != nil {
+			continue
+		}
+		hold := make(chan struct{})
+		f.tc.setReconHold(hold)
+		f.lk.drop()
+		l2 := f.acceptNext(3 * time.Second)
+		if l2 != nil && waitUntil(2*time.Second, func() bool { return f.tc.reconCount() == 1 }) {
+			l2.drop() // the callback is parked; the client's reader notices the loss now
+			time.Sleep(150 * time.Millisecond)
+			f.tc.setReconHold(nil)
+			close(hold)
+			l3 := f.followNewest(1500 * time.Millisecond)
+			cs := trans + ": drop, recovery succeeds, new connection dropped while the after-reconnect callback runs (keepalive 1 h)"
+			if l3 == nil {
+				r.violate(Violation{What: "a loss of the connection was never recovered: the new connection died while the after-reconnect callback of the recovery that created it was running", Case: cs,
+					Extra: strings.Join(f.tc.log.snapshot(), "\n")})
+			} else {
+				ch := f.tc.doAsync(33, nil, fReq)
+				if q := l3.nextRequest(time.Second); q != nil {
+					l3.sendFrame(respFrame(1, 33, q.Rid, 0, []byte("back")))
+				}
+				if res, ok := awaitDo(ch, 2*time.Second); !ok || res.pkt == nil {
+					r.violate(Violation{What: "service not re-established after a loss during the after-reconnect callback: " + resultStr(res), Case: cs})
+				}
+				o := f.observe(false)
+				if trans == "tcp" {
+					r.emit("lf.run 0 CL RB DD.1 AD.1 X.0.r X.0.w X.0.d CL FN RB DD.1 AD.1 FN X.1.r X.1.w X.1.d", o.String(), true)
+				}
+				if o.recon != 2 {
+					r.violate(Violation{What: fmt.Sprintf("after-reconnect callback ran %d times for two successful recoveries", o.recon), Case: cs})
+				}
+			}
+		} else {
+			f.tc.setReconHold(nil)
+			close(hold)
+		}
+		r.count("c08.loss-while-finishing." + trans)
+		r.st.Evaluations++
+		f.close()
+	}
 }
